@@ -65,6 +65,9 @@ class JSONStore(MutableMapping):
         try:
             with open(self.json_store, "r") as fp:
                 self.store = json.load(fp)
+            if not isinstance(self.store, dict):
+                # Valid JSON, but an array, a number... cannot hold the store.
+                raise ValueError("not a JSON object")
             self.logger.info(
                 "JSONStore loading: {}".format(self.json_store)
             )
